@@ -236,6 +236,7 @@ structure DSt where
   delRefusedDeps : Nat := 0
   cascades : Nat := 0
   httpOps : Nat := 0
+  textIdentical : Nat := 0
   parsedOk : Nat := 0
   parsedBad : Nat := 0
   caseInteresting : Bool := false
@@ -328,7 +329,18 @@ def handle (d : DSt) (n : Nat) (line : String) : IO DSt := do
       | none => IO.println s!"BADLINE line={n} unknown-type"; return d
       | some ti =>
         let mcfg := createObjectConfig ti i.name i.ioe i.tmpl i.attrs o.parts o.now
-        if mcfg != o.cfg then
+        -- compared by what the texts PARSE to (spacing, indentation, order of independent entries are the
+        -- writer's business); byte identity is only counted
+        let sameCfg : Bool := match mcfg, o.cfg with
+          | none, none => true
+          | some a, some b =>
+            a == b || (match parseItem a, parseItem b with
+              | some x, some y => itemSame x y
+              | none, none => true
+              | _, _ => false)
+          | _, _ => false
+        if mcfg == o.cfg then d := { d with textIdentical := d.textIdentical + 1 }
+        if !sameCfg then
           d ← mismatch d n "config" s!"impl={(o.cfg.map hexOf).getD "!"} model={(mcfg.map hexOf).getD "!"}"
         -- 2. the state machine, with the outcome as the injected fault
         let existed := d.before.has k
@@ -428,4 +440,4 @@ def handle (d : DSt) (n : Nat) (line : String) : IO DSt := do
 def main : IO Unit := do
   let stdin ← IO.getStdin
   let d ← foldLines stdin handle ({} : DSt)
-  IO.println s!"STATS cases={d.caseNo} steps={d.steps} creates={d.creates} created={d.createdOk} cfg_rejected={d.cfgRejected} create_failed={d.failed} dup_refused={d.dupRefused} ignored={d.ignored} deletes={d.deletes} deleted={d.deletedOk} refused_non_api={d.delRefusedNonApi} refused_deps={d.delRefusedDeps} cascades={d.cascades} http_ops={d.httpOps} text_parsed={d.parsedOk} text_unparsed={d.parsedBad} nontrivial={d.nontrivial} mismatches={d.mismatches} specfails={d.specfails}"
+  IO.println s!"STATS cases={d.caseNo} steps={d.steps} creates={d.creates} created={d.createdOk} cfg_rejected={d.cfgRejected} create_failed={d.failed} dup_refused={d.dupRefused} ignored={d.ignored} deletes={d.deletes} deleted={d.deletedOk} refused_non_api={d.delRefusedNonApi} refused_deps={d.delRefusedDeps} cascades={d.cascades} http_ops={d.httpOps} text_identical={d.textIdentical} text_parsed={d.parsedOk} text_unparsed={d.parsedBad} nontrivial={d.nontrivial} mismatches={d.mismatches} specfails={d.specfails}"
